@@ -45,6 +45,12 @@ type HPACK struct {
 	// https://tools.ietf.org/html/rfc7541#section-6.3
 	pendingSizeUpdate bool
 
+	// fieldDecoded says whether the last call of nextField produced a field. It
+	// does not when the input was table size updates and nothing else. Callers
+	// used to tell by looking at the field: but a field whose name and value
+	// are both empty looks the same, and was taken for no field at all.
+	fieldDecoded bool
+
 	// pendingLowSize is the smallest table size set since the peer was last
 	// told. When the size went down and up again before the next header block,
 	// the peer has to hear about the low point first: it is what tells it which
@@ -101,6 +107,7 @@ func (hp *HPACK) Reset() {
 	hp.maxTableSize = defaultHeaderTableSize
 	hp.maxTableSizeSettings = defaultHeaderTableSize
 	hp.pendingSizeUpdate = false
+	hp.fieldDecoded = false
 	hp.DisableCompression = false
 }
 
@@ -266,6 +273,8 @@ func (hp *HPACK) nextField(hf *HeaderField, blockStart bool, fieldsProcessed int
 		c   byte
 		err error
 	)
+
+	hp.fieldDecoded = false
 
 loop:
 	if len(b) == 0 {
@@ -433,6 +442,8 @@ loop:
 
 		goto loop
 	}
+
+	hp.fieldDecoded = err == nil
 
 	return b, err
 }
